@@ -26,6 +26,7 @@ FEATURES = [
     "constraint_params",  # parameters in constraints
     "poison",  # utility NaN/inf/huge at infeasible choices
     "excluded_states",  # some restricted-state combination has no passing choice
+    "two_stochastic",  # >= 2 stochastic states (joint expectation over a product of nodes)
 ]
 
 STATE_NAMES = ["wealth", "health", "lagret", "educ", "exper", "assets", "kids"]
@@ -67,7 +68,7 @@ def draw_features(rng, index, base=0.25):
     # dependencies between features
     if f["mixed_discrete"] or f["period_filter"] or f["excluded_states"]:
         f["filters"] = True
-    if f["stoch_multi_dep"]:
+    if f["stoch_multi_dep"] or f["two_stochastic"]:
         f["stochastic"] = True
     return f
 
@@ -98,6 +99,8 @@ def gen_model(rng, cfg=None, feats=None):
         n_cS = max(n_cS, 2)
     if F["stochastic"]:
         n_dS = max(n_dS, 1)
+    if F.get("two_stochastic"):
+        n_dS = max(n_dS, 2)
     if F["stoch_multi_dep"]:
         if n_dS + n_dC < 2:
             n_dC = max(n_dC, 1)
@@ -126,7 +129,7 @@ def gen_model(rng, cfg=None, feats=None):
         cfg["max_choices"] = max(cfg["max_choices"], n_cC + min(n_dC, 2))
     # caps
     while n_dS + n_cS > cfg["max_states"]:
-        if n_dS > 1 and (n_dS >= n_cS):
+        if n_dS > (2 if F.get("two_stochastic") else 1) and (n_dS >= n_cS):
             n_dS -= 1
         elif n_cS > 1:
             n_cS -= 1
@@ -468,7 +471,7 @@ def gen_model(rng, cfg=None, feats=None):
                 params[name] = {}
                 continue
             r = rng.random()
-            want_st = F["stochastic"] and not any(True for _ in stochastic)
+            want_st = (F["stochastic"] and not stochastic) or (F.get("two_stochastic") and len(stochastic) < 2)
             if (want_st or r < 0.25) and not (restricted and excluded_any) and cfg.get("allow_stochastic", True):
                 pool = [x for x in dS + dC]
                 deps = [d for d in pool if rng.random() < 0.4]
@@ -495,6 +498,7 @@ def gen_model(rng, cfg=None, feats=None):
                 params.setdefault("shocks", {})[k] = P.tolist()
                 params[name] = {}
                 realised["stochastic"] = True
+                realised["two_stochastic"] = len(stochastic) >= 2
                 sz = [d for d in dims[:-1]]
                 if len(sz) >= 2 and len(set(sz)) >= 2:
                     realised["stoch_multi_dep"] = True
